@@ -5,6 +5,7 @@
 package pipe
 
 import (
+	"compress/gzip"
 	"bytes"
 	"fmt"
 	"io"
@@ -42,6 +43,7 @@ type Input struct {
 	Name  string     `json:"name"`
 	Data  []byte     `json:"data"`
 	Steps []ReadStep `json:"steps,omitempty"` // reader mode only
+	Gz    bool       `json:"gz,omitempty"`    // files mode with Cfg.Gunzip: the file on disk holds Data gzip-compressed
 }
 
 type MatcherSpec struct {
@@ -60,6 +62,7 @@ type Config struct {
 	GoMaxProcs int    `json:"gomaxprocs"`
 	Delay      string `json:"delay"`    // none | slow-reader | slow-worker | slow-consumer | jitter
 	Consumer   string `json:"consumer"` // fast | slow
+	Gunzip     bool   `json:"gunzip,omitempty"` // files are opened with the -z behaviour: gzip content is decompressed, anything else is read as it is
 }
 
 type Workload struct {
@@ -383,7 +386,15 @@ func Materialise(w *Workload, dir string) ([]string, error) {
 		if err := os.MkdirAll(filepath.Dir(p), 0o755); err != nil {
 			return nil, err
 		}
-		if err := os.WriteFile(p, w.Inputs[i].Data, 0o644); err != nil {
+		data := w.Inputs[i].Data
+		if w.Inputs[i].Gz && w.Cfg.Gunzip {
+			var zb bytes.Buffer
+			zw := gzip.NewWriter(&zb)
+			zw.Write(data)
+			zw.Close()
+			data = zb.Bytes()
+		}
+		if err := os.WriteFile(p, data, 0o644); err != nil {
 			return nil, err
 		}
 		paths = append(paths, p)
@@ -484,7 +495,7 @@ func Run(w *Workload, dir string, limit time.Duration) *Observed {
 				}
 				close(names)
 			}()
-			b = batchers.OpenFilesToChan(names, false, w.Cfg.Readers, w.Cfg.Batch, w.Cfg.Buffer)
+			b = batchers.OpenFilesToChan(names, w.Cfg.Gunzip, w.Cfg.Readers, w.Cfg.Batch, w.Cfg.Buffer)
 		}
 		// tap between batcher and extractor
 		tapOut := make(chan extractor.InputBatch)
